@@ -40,7 +40,7 @@ def judge(ctx, cases, nontrivial, ex):
             pending.append((c, problems))
         elif ctx.cov["evaluations"] % 1500 == 1:
             ctx.sample({"ra": v["ra"], "rv": v["rv"], "tagged": v["tagged"], "observed": {k: o[k] for k in ("rwhere", "returned", "status", "cerr")}})
-    ex.prepare([c["v"] for c, _ in pending])
+    hc.prepare_explanations(ex, cases, [c for c, _ in pending])
     hc.validate_cases(ctx, cases, "C03", skip_ids={c["id"] for c, _ in pending}, ex=ex)
     for c, problems in pending:
         v, o = c["v"], c["obs"]
@@ -56,20 +56,28 @@ def run(ctx):
     quick = ctx.quick()
     ctx.cov["rule"] = ("cases = (result shape, result value vector, tagged response or not) enumerated by TLC from HTTPTransport.tla (result family); "
                        "non-trivial = tagged response, or an attribute outside the body or optional/defaulted; distinct = canonical JSON")
-    ctx.mc_expect_violation("mc/MC_HTTPTransport", consts={"Family": '"res"', "Deviations": '{"response.header_array_joined"}'}, label="MC dev response.header_array_joined")
     frac = float(os.environ.get("VERIF_FRAC") or (0.12 if quick else 1.0))
-    vectors = hc.sample_shapes(hc.gen_vectors(ctx, "res", 1, 1), frac, ctx.seed)
-    cases, pl = hc.run_family(ctx, "res", vectors)
+
+    def single():
+        return hc.run_family(ctx, "res", hc.sample_shapes(hc.gen_vectors(ctx, "res", 1, 1), frac, ctx.seed))
+
+    def same_location():
+        # two result attributes in the same location (two cookies, two headers), and in thorough random pairs
+        allv = hc.gen_vectors(ctx, "res", 1, 1, label="Gen res 1x1 (for pairs)")
+        pairs = hc.combine_cases(ctx, allv, 80 if quick else 1500, ctx.seed, fam="res", mode="sameloc")
+        if not quick:
+            pairs += hc.combine_cases(ctx, allv, 3000, ctx.seed + 1, fam="res")
+        return hc.run_family(ctx, "res", pairs, name="gen-res-pairs")
+    guards, f1, f2 = hc.side_by_side(ctx, [
+        lambda: hc.expect_violations(ctx, [({"Family": '"res"', "Deviations": '{"response.header_array_joined"}'}, "MC dev response.header_array_joined")]),
+        single, same_location])
+    guards.result()
+    cases, pl = f1.result()
     for i, f in sorted(pl.failed.items()):
         ctx.notes.append("design d%d not usable: %s" % (i, str(f)[:300]))
     nontrivial = set()
     judge(ctx, cases, nontrivial, hc.Explainer(ctx, "res", 1, 1))
-    # two result attributes in the same location (two cookies, two headers), and in thorough random pairs
-    allv = hc.gen_vectors(ctx, "res", 1, 1, label="Gen res 1x1 (for pairs)")
-    pairs = hc.combine_cases(ctx, allv, 80 if quick else 1500, ctx.seed, fam="res", mode="sameloc")
-    if not quick:
-        pairs += hc.combine_cases(ctx, allv, 3000, ctx.seed + 1, fam="res")
-    casesp, plp = hc.run_family(ctx, "res", pairs)
+    casesp, plp = f2.result()
     judge(ctx, casesp, nontrivial, hc.Explainer(ctx, "res", 1, 2))
     ctx.cov["pairs"] = len(casesp)
     ctx.cov["distinct_nontrivial"] = len(nontrivial)
